@@ -560,10 +560,7 @@ def add_quantity_check(I, n, subst, q):
     if 'U' in u[0].dims and subst.kind != 'enzyme':
         I.sink(n, 'add-cell', False, f"a {subst.kind} is added in activity units (raises ValueError)")
         raise Raised('ValueError', n.lineno)
-    if 'mol' in u[0].dims and subst.kind == 'enzyme':
-        I.sink(n, 'add-cell', False, 'an enzyme amount is given in moles: it converts to zero')
-    else:
-        I.sink(n, 'add-cell', True)
+    I.sink(n, 'add-cell', True)
 
 
 def transfer_summary(I, n, args):
@@ -702,8 +699,10 @@ def api_parse_concentration(I, n, c):
         name = c.name if not isinstance(c, Other) else 'other:' + c.d
         key = ('pc', name)
         if key not in I.memo:
-            a = units[I.choose(len(units), f"numerator of {name}")]
-            b = units[I.choose(len(units), f"denominator of {name}")]
+            nums = I.opts.get('pc_nums', units)
+            dens = I.opts.get('pc_dens', units)
+            a = nums[I.choose(len(nums), f"numerator of {name}")]
+            b = dens[I.choose(len(dens), f"denominator of {name}")]
             I.memo[key] = (a, b)
         a, b = I.memo[key]
         if isinstance(c, UserC1):
